@@ -1,17 +1,20 @@
 /-
 C07 — property theorems (statements + proofs + non-vacuity examples only).
 
-* `inline_sound`              replacing every call by its body preserves evaluation (any nesting depth)
+* `inline_sound`              replacing every call by its body preserves evaluation (any nesting depth,
+                              every interpretation of the primitive operators)
 * `key_injective`             equal `FunctionKey`s ⇒ equal target, input shapes/dtypes, every keyword
-                              capture (full content), same instance (default) / equal full state (unique)
-* `shared_only_if_equal_key`  over every history of call sites: one definition ⇒ equal keys
-* `shared_only_if_equal_components`  … ⇒ equal components (the two above combined)
-* `shared_only_if_equal_state`  … ⇒ equal callee state, when no instance changes state inside the history
-* `key_determines_state_refuted`  the unrestricted version is false in the default mode (same object,
-                              mutated between two calls) — replayed on the real code, known finding
+                              capture as the code classifies it (full bytes), same instance (default) /
+                              equal type and full state (unique)   [digests assumed injective]
+* `key_injective_kwargs_partial`  … ⇒ identical keyword arguments, for call sites without a static
+                              keyword named like an `input_params` entry and without auto-injection
+* `kwargs_in_key_refuted`     the unrestricted statement is false (name-based capture) — known finding
+* `shared_only_if_equal_key`, `shared_only_if_equal_components`   over every history of call sites
+* `shared_only_if_equal_state_partial`  … ⇒ equal callee state when no instance changes state inside
+                              the history; `key_determines_state_refuted`: false otherwise — known finding
 * `arity_agrees`, `arity_agrees_out`   call node arity = definition arity
 * `domain_name_unique`        distinct definitions get distinct (domain, name), namespaces of equal depth
-* `domain_name_unique_any_depth_refuted`  without the depth condition two counters can collide
+* `domain_name_unique_any_depth_refuted`  without the depth condition two counters collide — known finding
 -/
 import J2O.Lemmas.C07
 set_option linter.unusedSimpArgs false
